@@ -43,12 +43,12 @@ MANIFEST = dict(
          "-1 -> -0.5 -> 'PreviewTime: 0', stays stated as C13_OLD_osu_preview_unset_refuted; repaired by 09d92a7); (3) write survival over the format models: Quaver whole "
          "document for every chart of C06's writer domain (denote(write(rate r c)) = rated timeline, every time within < 1 ms of t/r, bpm*r exactly, "
          "counts/lanes/key sounds kept), StepMania and BMS by composition with C03's / C05's whole-file writer theorems for every rated chart in "
-         "their decidable domains (objects at exactly t/r resp. within 1/192 beat and exact on the grid, tempo at t/r with bpm*r), osu against C01's "
-         "write oracle (_partial: C01 has no whole-file writer theorem yet); the format-level rate functions are proved equal to the stacker model "
+         "their decidable domains (objects at exactly t/r resp. within 1/192 beat and exact on the grid, tempo at t/r with bpm*r), osu by composition with "
+         "C01's whole-file writer theorem (notes and samples within < 1 ms of t/r, tempo at t/r with bpm*r; printers as oracle parameters); the format-level rate functions are proved equal to the stacker model "
          "under explicit embeddings. Tied to Map.rate/MapSet.rate/OsuMap.rate/SMMapSet.rate by in-Coq correspondence on charts of all five games "
          "(model output = implementation output, original untouched, file-level fields included).",
-    note="Trusted: Coq kernel+VM, harness; binary64 exact on the exact stream by construction, measured (1e-9) on the rounded stream. Open: osu "
-         "whole-file writer theorem (C01), closure of the StepMania / BMS writer domains under rate (hypothesis on the rated chart), C03's theorem "
+    note="Trusted: Coq kernel+VM, harness; binary64 exact on the exact stream by construction, measured (1e-9) on the rounded stream. Open: closure "
+         "of the osu / StepMania / BMS writer domains under rate (hypothesis on the rated chart), C03's theorem "
          "does not state the written tempo list. Fixed findings: SM offset unscaled (0398fe5), osu preview marker scaled (09d92a7).",
     technique="Coq proof (composition of stacker refinement; composition with the formats' writer theorems) + vm_compute correspondence",
     design="4/C13")
